@@ -124,6 +124,22 @@ def _gensym():
     return f"_ptera__{next(_IDX)}"
 
 
+def _suspend(frame, value):
+    """Called right before a generator yields: leave the call's context."""
+    suspend = getattr(frame, "suspend", None)
+    if suspend is not None:
+        suspend()
+    return value
+
+
+def _resume(frame, value):
+    """Called right after a generator is resumed: re-enter the call's context."""
+    resume = getattr(frame, "resume", None)
+    if resume is not None:
+        resume()
+    return value
+
+
 class ExternalVariableCollector(NodeVisitor):
     """Collect variables referred to but not defined in the given AST.
 
@@ -766,11 +782,24 @@ class PteraTransformer(NodeTransformer):
             self.visit(node.value or ast.Constant(value=None)),
             True,
         )
+        # While the generator is suspended, its caller must not run in the
+        # context of this call: suspend(frame, v) / resume(frame, v) return v
+        # and switch the context off and back on around the yield.
+        suspended = ast.Call(
+            func=self._get("suspend"),
+            args=[self._get("frame"), new_value],
+            keywords=[],
+        )
+        resumed = ast.Call(
+            func=self._get("resume"),
+            args=[self._get("frame"), ast.Yield(value=suspended)],
+            keywords=[],
+        )
         new_yield = self._interact(
             "#receive",
             None,
             self._get("enter_tag"),
-            ast.Yield(value=new_value),
+            resumed,
             True,
         )
         return ast.copy_location(new_yield, node)
@@ -992,6 +1021,8 @@ def transform(fn, proceed, to_instrument=True, set_conformer=True):
         "frame": ("__ptera_frame", None),
         "enter_tag": ("__ptera_enter_tag", enter_tag),
         "exit_tag": ("__ptera_exit_tag", exit_tag),
+        "suspend": ("__ptera_suspend", _suspend),
+        "resume": ("__ptera_resume", _resume),
     }
     glb.update(
         {name: value for name, value in lib.values() if value is not None}
